@@ -42,12 +42,17 @@ Notation read_no_secrets := (read_no_secrets L).
 Notation handle_from_proto := (handle_from_proto L).
 Notation read := (read L).
 
-(* NewHandleWithNoSecrets: exactly the cleartext construction restricted to
-   keysets free of secrets *)
+(* NewHandleWithNoSecrets (/repo b141c20): the label test, the cleartext
+   construction, then the material test on the re-serialised keys *)
 Theorem handle_no_secrets_spec ks :
   handle_no_secrets (Some ks) =
-  if has_secrets ks then Err else handle_from_proto (Some ks).
-Proof. reflexivity. Qed.
+  if has_secrets ks then Err
+  else match handle_from_proto (Some ks) with
+       | Ok h => if handle_has_secrets h then Err else Ok h
+       | Err => Err
+       | Panic => Panic
+       end.
+Proof. unfold Untrusted.handle_no_secrets. destruct (has_secrets ks); [reflexivity|]. destruct (handle_from_proto (Some ks)); reflexivity. Qed.
 
 Theorem no_secrets_api_fails_on_secret ks :
   Exists (fun k => ~ public_or_remote (key_material k)) (ks_keys ks) ->
@@ -62,10 +67,25 @@ Proof.
   - intros b D. unfold Untrusted.read_no_secrets. rewrite D. unfold Untrusted.handle_no_secrets. rewrite S. reflexivity.
 Qed.
 
-Theorem no_secrets_api_succeeds_on_public ks :
+(* the re-serialised keys hold no secret iff every key object serialises to
+   public or remote material *)
+Lemma handle_has_secrets_iff h :
+  handle_has_secrets h = false <-> Forall (fun e => public_or_remote (out_material e)) h.
+Proof.
+  unfold handle_has_secrets. induction h as [|e t IH]; simpl.
+  - split; auto.
+  - rewrite orb_false_iff, IH, secret_material_spec. split.
+    + intros [A B]. constructor; auto.
+    + intros H. inversion H; subst. auto.
+Qed.
+
+(* on keysets labelled public/remote only, the no-secrets APIs are the
+   cleartext construction followed by the material test on the key objects *)
+Theorem no_secrets_api_on_public_labels ks :
   Forall (fun k => public_or_remote (key_material k)) (ks_keys ks) ->
-  handle_no_secrets (Some ks) = handle_from_proto (Some ks)
-  /\ forall b, decode_keyset b = Some ks -> read_no_secrets b = read b.
+  handle_no_secrets (Some ks) = bind (handle_from_proto (Some ks)) (fun h => if handle_has_secrets h then Err else Ok h)
+  /\ forall b, decode_keyset b = Some ks ->
+       read_no_secrets b = bind (read b) (fun h => if handle_has_secrets h then Err else Ok h).
 Proof.
   intros H. apply has_secrets_iff in H. split.
   - unfold Untrusted.handle_no_secrets. rewrite H. reflexivity.
